@@ -193,6 +193,8 @@ def check_null_runner(ck):
 
 
 def check(ck):
+    from .memo import check_new_memo_tables
+    ck.run(check_new_memo_tables, ck, "C19.M1", ('storage', 'storage_base', 'storage_filesystem', 'storage_null', 'runner_null'))
     ck.run(check_guard, ck)
     ck.run(check_queries_effect_free, ck, "C19.R2")
     ck.run(check_plumbing, ck)
